@@ -583,11 +583,50 @@ def run(env, rep):
                      + ["triggered:" + k for k in ref.KINDS]):
             if not rep.hist.get(need):
                 raise HarnessError("generator never produced " + need)
+        run_observed_bodies(env, rep, world)
     finally:
         world.close()
 
 
+def run_observed_bodies(env, rep, world):
+    """block-wise bodies of notifications (harness/c05_observe.py): oracle only -- the Lean client machine has no
+    observations"""
+    import c05_observe as O
+    import sys
+    loop = asyncio.new_event_loop()
+    # ClientObservation._Iterator.__del__ re-raises an error nobody fetched so that it shows up "in the finalizer
+    # output" -- by design, and not the property's business
+    old_hook, sys.unraisablehook = sys.unraisablehook, lambda *a: None
+    try:
+        for sc in O.scenarios(env.rng, env.scale(150, 3000)):
+            res = loop.run_until_complete(O.run_scenario(world.aiocoap, sc))
+            case = {"kind": "observed-body", "sc": sc}
+            rep.case(case, nontrivial=any(s[0] > 1 for s in sc["reps"][1:]), sample_every=300)
+            rep.count("observed-body:reps=%d" % len(sc["reps"]))
+            for s_ in sc["reps"][1:]:
+                rep.count("observed-body:server=" + (s_[2] or "conforming"))
+            for x in res["seen"]:
+                rep.count("observed-body:seen=" + (x[0] if x[0] != "item" else "item:%d" % x[1]))
+            v, key = O.oracle(sc, res)
+            if v:
+                rep.oracle_fail(case, v, key=key)
+    finally:
+        loop.close()
+        import gc
+        gc.collect()
+        sys.unraisablehook = old_hook
+
+
 def replay(env, case):
+    if case.get("kind") == "observed-body":
+        import c05_observe as O
+        aiocoap = env.import_repo()
+        loop = asyncio.new_event_loop()
+        try:
+            res = loop.run_until_complete(O.run_scenario(aiocoap, case["sc"]))
+        finally:
+            loop.close()
+        return O.oracle(case["sc"], res)[0]
     world = World(env)
     try:
         if "blockopt" in case:
